@@ -392,6 +392,18 @@ class Emitted:
         self.fn = None         # FnItem
 
 
+def _strip_comments(text):
+    """comments of the extracted body are dropped before rules and anchors are applied (R-comment: a comment has no run-time meaning), so that
+    a comment added in the middle of an anchored multi-line statement does not move the function out of reach"""
+    out = []
+    for t in tokenize(text):
+        if t.kind == 'comment':
+            out.append(' ')
+        else:
+            out.append(t.text)
+    return ''.join(out)
+
+
 GLOBAL_OPTIONAL_RULES = [('optclosure', ''), ('noprint', '')]
 
 
@@ -402,7 +414,7 @@ def emit_function(root, c, mode, extra_fmt_fns):
     em = Emitted()
     em.fn = fn
     sig = fn.sig_text
-    body = fn.body_text
+    body = _strip_comments(fn.body_text)
     ctx = R.RuleCtx(c.name, extra_fmt_fns, em.log)
     # rules that every function gets when their pattern occurs (they only remove constructs that Verus cannot see through)
     for rule, arg in [(r + '?', a) for r, a in GLOBAL_OPTIONAL_RULES] + list(c.rules):
